@@ -85,16 +85,23 @@ func (m *Machine) checkListings(s *Snap, ord []*JobRec) {
 			continue
 		}
 		running, _ := m.jobsOf(s, p)
-		live := 0
+		live, liveMaybe := 0, 0
 		for id := range m.mon.exec[p] {
-			if m.mon.finished[id] == 0 {
+			if m.mon.finished[id] != 0 {
+				continue
+			}
+			// (a job whose pipeline was undefined for a while may have been purged by a save: then the
+			// runner no longer knows it although its tasks go on; nothing is promised about such a job)
+			if rec := m.w.Jobs[id]; rec != nil && rec.MaybePurged {
+				liveMaybe++
+			} else {
 				live++
 			}
 		}
 		if info.Running != (len(running) > 0) {
 			m.fail("C15", "pipeline %s listed running=%v but %d of its jobs are started and unfinished", p, info.Running, len(running))
 		}
-		if info.Running != (live > 0) {
+		if (info.Running && live+liveMaybe == 0) || (!info.Running && live > 0) {
 			m.fail("C15", "pipeline %s listed running=%v but the task runner log shows %d executing jobs", p, info.Running, live)
 		}
 		if info.Running || !info.Schedulable {
